@@ -412,7 +412,9 @@ func main() {
 		// the raw-byte scan that refuses the self-described tag (transcribed in CoseModel/TagScan.lean)
 		"validateHeaderLabelCBOR", "ensureUntaggedHeaderLabels", "typeCheckedHeaderLabel", "headArgument", "scanSelfDescribedTag",
 		// both header buckets in one call, and the two bucket encoders (C19)
-		"Headers.UnmarshalFromRaw", "Headers.MarshalProtected", "Headers.MarshalUnprotected"}
+		"Headers.UnmarshalFromRaw", "Headers.MarshalProtected", "Headers.MarshalUnprotected",
+		// the signing methods: gate, ToBeSigned, signer call, empty-answer test, store (C20, C11)
+		"Sign1Message.Sign", "Signature.Sign", "SignMessage.Sign", "Countersignature.Sign"}
 	for _, fn := range bodyFns {
 		fd := funcs[fn]
 		var rows []string
